@@ -60,9 +60,9 @@ def parse_boot(a):
     for i in range(nin): b.inputs[i]['gpio'] = nx(); b.inputs[i]['channel'] = nx()
     return b, boot32, blank, flashcfg
 
-def gen_board(rng):
+def gen_board(rng, no_rs=False):
     k = K(); b = Board()
-    nrs = rng.choice([0, 1, 1, 1, 2]); nplain = rng.choice([0, 1, 2])
+    nrs = 0 if no_rs else rng.choice([0, 1, 1, 1, 2]); nplain = rng.choice([0, 1, 2])
     gp = [4, 5, 12, 13, 14, 15]; ch = 0
     for _ in range(nrs):
         u = len(b.relays); b.relays.append((gp.pop(0), ch, 0)); b.relays.append((gp.pop(0), ch, 0)); b.rs.append((u, u + 1)); ch += 1
@@ -169,6 +169,33 @@ class C12(F.PropCheck):
             if rng.random() < 0.8: return k['CALL_SET_VALUE'], new_value(5, ch, t2 | (t1 << 16), [v, rng.choice([0, 10, 60, 255])]), 'srv:setvalue'
             return k['CALL_GROUP_SET_VALUE'], group_value(ch, t2 | (t1 << 16), [v]), 'srv:groupvalue'
         if x < 0.8: return k['CALL_REGISTER_RESULT'], reg_result(rng.choice([None, None, 5, 0, 9])), 'srv:regresult'
+        if x < 0.9:
+            # payloads of one handled call whose bytes, read with the layout of ANOTHER handler, spell an authorised
+            # enter-configuration / recalibrate request or a shutter set-value with new times (dispatch fall-through, wrong cast)
+            hdr = k['REQ_SIZE'] - k['CALCFG_DATA_MAX']
+            ch = rng.choice(rsch) if rsch and rng.random() < 0.8 else rng.choice(chans)
+            kind = rng.choice(['calcfg', 'calcfg', 'nv', 'gnv'])
+            need = {'calcfg': hdr + k['RSSET_SIZE'], 'nv': k['NV_SIZE'], 'gnv': k['GNV_SIZE']}[kind]
+            own = {'calcfg': k['CALL_CALCFG_REQUEST'], 'nv': k['CALL_SET_VALUE'], 'gnv': k['CALL_GROUP_SET_VALUE']}[kind]
+            cands = [(c, n) for (c, n) in k['VALIDSIZES'] if n >= need and c != own]
+            if kind != 'calcfg': cands.append((k['CALL_CALCFG_REQUEST'], None))
+            call, n = rng.choice(cands)
+            if n is None:
+                base = bytearray(calcfg_req(rng.choice([0, 7]), rng.choice(chans), rng.choice([0, 1, 8000, 9000]), rng.choice([0, 0, 1]), rng.choice([0, 1000]),
+                                            bytes(rng.getrandbits(8) for _ in range(rng.randrange(8, 40)))))
+            else:
+                base = bytearray(rng.choice([0, 0, rng.getrandbits(8)]) for _ in range(n))
+            if kind == 'calcfg':
+                cmd, auth, dtype = rng.choice([(k['CMD_ENTER_CFG_MODE'], 1, 0), (k['CMD_ENTER_CFG_MODE'], 1, 0), (k['CMD_RECALIBRATE'], 1, 0),
+                                               (k['CMD_RECALIBRATE'], 1, k['DATATYPE_RS_SETTINGS']), (k['CMD_ENTER_CFG_MODE'], 0, 0)])
+                data = struct.pack('<ii', 7000, 8000) if dtype else b''
+                ov = calcfg_req(7, ch, cmd, auth, dtype, data, len(data) if rng.random() < 0.7 else len(base) - hdr)
+            elif kind == 'nv': ov = new_value(5, ch, rng.choice([70 | (80 << 16), 0, 130 | (100 << 16)]), [rng.choice([0, 1, 60])])
+            else: ov = group_value(ch, rng.choice([70 | (80 << 16), 0]), [rng.choice([0, 2])])
+            keep = bytes(base[k['REQ_OFF_DATASIZE']:k['REQ_OFF_DATASIZE'] + 4]) if n is None else None
+            base[:len(ov)] = ov[:len(base)]
+            if keep is not None: base[k['REQ_OFF_DATASIZE']:k['REQ_OFF_DATASIZE'] + 4] = keep     # stays a gate-passing CALCFG request
+            return call, bytes(base), 'srv:overlay-' + kind
         if rng.random() < 0.5:
             # a call the dispatcher knows, with a size the srpc gate accepts and random content
             call, n = rng.choice(k['VALIDSIZES'])
@@ -179,11 +206,16 @@ class C12(F.PropCheck):
         return call, bytes(rng.getrandbits(8) for _ in range(n)), 'srv:other'
 
     def gen_abstract(self, rng, cid):
-        k = K(); b = gen_board(rng); tags = ['abstract']
+        k = K(); tags = ['abstract']
         x = rng.random()
         blank = 0; flashcfg = 1
         if x < 0.12: blank = rng.choice([1, 2, 4, 8, 3, 15, 2 | 16, 1 | 16, 16]); tags.append('boot:blank%d' % blank)
         elif x < 0.16: flashcfg = 0; tags.append('boot:firstboot')
+        elif x < 0.28:
+            # a valid record of an older layout (v6 / v5B / v5A), mostly with a complete configuration: migrated at boot, nothing may be lost
+            flashcfg = rng.choice([2, 3, 4]); blank = rng.choice([0, 0, 0, 0, 16, 2 | 16, 2, 4]); tags.append('boot:migrate%d' % flashcfg)
+        # (the uninitialised tail of the 6->7 migration makes stored shutter settings unpredictable: boards without shutters there)
+        b = gen_board(rng, no_rs=flashcfg >= 2)
         boot32 = rng.choice([1, 1, 1, 0, 1000000, M32 - 1, M32 - 3000000, M32 - 6000000, M32 - 500000, 1 << 31, rng.getrandbits(32)])
         gpioin = 0
         for i in b.inputs:
